@@ -559,10 +559,14 @@ HookUnsub(h, j, len) ==
   ELSE IF h.conn[c].kind = "ref_count"
        \* (fix: ref_count takes the subscription out of its slot - write lock - and unsubscribes it with no lock held, so that
        \*  the next first subscriber connects again)
-       THEN LET h1 == Touch(h, Lk("conn", c), "W")
-            IN IF h1.stuck # "" \/ ~h1.conn[c].some THEN h1
-               ELSE IF ~h1.conn[c].live THEN [h1 EXCEPT !.conn[c].some = FALSE]
-               ELSE Unsub([h1 EXCEPT !.conn[c].some = FALSE, !.conn[c].live = FALSE], h1.conn[c].obs)
+       \*  the next first subscriber connects again; connecting and releasing are serialized by the slot's lock, and the hook
+       \*  re-reads the observer table under it: a subscriber that joined in the meantime keeps the source - RefCountConc)
+       THEN LET h1 == Acquire(h, Lk("conn", c), "W")
+            IN IF h1.stuck # "" THEN h1
+               ELSE IF Len(h1.sbj[j].map) # 0 \/ ~h1.conn[c].some THEN Release(h1)
+               ELSE IF ~h1.conn[c].live THEN Release([h1 EXCEPT !.conn[c].some = FALSE])
+               ELSE LET h2 == Unsub([h1 EXCEPT !.conn[c].some = FALSE, !.conn[c].live = FALSE], h1.conn[c].obs)
+                    IN IF h2.stuck # "" THEN h2 ELSE Release(h2)
        ELSE LET h1 == Touch(h, Lk("conn", c), "R")
             IN IF h1.stuck # "" \/ ~h1.conn[c].some \/ ~h1.conn[c].live THEN h1
                ELSE Unsub([h1 EXCEPT !.conn[c].live = FALSE], h1.conn[c].obs)
